@@ -166,6 +166,33 @@ def run_model(ctx, r, cases, fuel=20000, timeout=600, mode="parse"):
 
 
 # ---------------------------------------------------------------- model generator (LR/Gen.v) vs gocc
+def gen_input_text(r_or_dump, g=None):
+    """The text of gen.in (input of `modelrun gen` / `genauto`, and what `modelrun synast` prints from the grammar file's bytes) derived
+    from gocc's dump (`verifdump lr`): "nn ntm terr" / productions / Symbols.List() / look-ahead order / p_acts.
+    r_or_dump: an LRRec (its .dump and .g are used) or the dump dict; g: the cfggen.CFG the file was written from (p_acts =
+    g.has_action); g None: p_acts is read from the dump's "sdt" strings (non-empty action text)."""
+    if isinstance(r_or_dump, dict):
+        d = r_or_dump
+    else:
+        d = r_or_dump.dump
+        g = g if g is not None else r_or_dump.g
+    terms, nts = d["terminals"], d["nonterminals"]
+    ti = {n: i for i, n in enumerate(terms)}
+    ni = {n: i for i, n in enumerate(nts)}
+
+    def sym(s):
+        return ("N%d" % ni[s]) if s in ni else ("T%d" % ti[s])
+    prods = ";".join("%d:%s" % (p["nt"], " ".join(sym(s) for s in (p["body"] if p["len"] > 0 else []))) for p in d["prods"])
+    la = sorted(range(len(terms)), key=lambda i: terms[i].encode("utf-8"))
+    terr = ti.get("error", 0)
+    if g is not None:
+        pacts = [0] + [1 if g.has_action(i) else 0 for i in range(len(g.prods))]
+    else:
+        pacts = [1 if p.get("sdt") else 0 for p in d["prods"]]
+    return "%d %d %d\n%s\n%s\n%s\n%s\n" % (len(nts), len(terms), terr, prods, " ".join(sym(s) for s in d["symbols"] if s in ni or s in ti),
+                                            " ".join(map(str, la)), " ".join(map(str, pacts)))
+
+
 def gen_compare(ctx, r, auto=False):
     """(auto=True: the model generator in mode -a, GenAuto.gen_run_auto: the RESOLVED action cells, the announced number of conflicts
     and the refusal are compared too.)
@@ -181,14 +208,9 @@ def gen_compare(ctx, r, auto=False):
 
     def sym(s):
         return ("N%d" % ni[s]) if s in ni else ("T%d" % ti[s])
-    prods = ";".join("%d:%s" % (p["nt"], " ".join(sym(s) for s in (p["body"] if p["len"] > 0 else []))) for p in d["prods"])
-    la = sorted(range(len(terms)), key=lambda i: terms[i].encode("utf-8"))
-    terr = ti.get("error", 0)
-    pacts = [0] + [1 if r.g.has_action(i) else 0 for i in range(len(r.g.prods))]
     path = os.path.join(r.dir, "gen.in")
     with open(path, "w") as f:
-        f.write("%d %d %d\n%s\n%s\n%s\n%s\n" % (len(nts), len(terms), terr, prods, " ".join(sym(s) for s in d["symbols"] if s in ni or s in ti),
-                                                 " ".join(map(str, la)), " ".join(map(str, pacts))))
+        f.write(gen_input_text(d, r.g))
     p = subprocess.run([ctx.modelrun, "genauto" if auto else "gen", path], capture_output=True, text=True, timeout=600)
     lines = p.stdout.split("\n")
     if lines and lines[0].startswith("EXIT "):
